@@ -21,5 +21,8 @@ func controlsC08() []Control {
 		{Name: "gate built without a time limit", Expect: "R6", Mutate: replaceIn("(*tableEngine).CreateTable", "Timeout: 2,", "Timeout: 0,", 0)},
 		{Name: "continue step returns early when the seat manager call succeeds", Expect: "R3", Mutate: replaceIn("(*tableEngine).continueGame", "playerState.Bankroll > 0); err != nil {", "playerState.Bankroll > 0); err == nil {", 0)},
 		{Name: "continue step waits the open-game timeout instead of the continue interval", Expect: "R3", Mutate: replaceIn("(*tableEngine).continueGame", "nextMoveInterval = te.options.GameContinueInterval", "nextMoveInterval = te.options.OpenGameTimeout", 0)},
+		{Name: "settlement-finished report never reaches the gate", Expect: "R7", Mutate: replaceIn("(*tableEngine).PlayerSettlementFinish", "\tte.ogm.Ready(playerID)\n", "", 0)},
+		{Name: "settlement-finished accepted only from players who are not seated-in", Expect: "R7", Mutate: replaceIn("(*tableEngine).PlayerSettlementFinish", "if !te.table.State.PlayerStates[playerIdx].IsIn {", "if te.table.State.PlayerStates[playerIdx].IsIn {", 0)},
+		{Name: "pause predicate asks the previous hand\u2019s snapshot for the break", Expect: "R2", Mutate: replaceIn("(Table).ShouldPause", "t.State.BlindState.IsBreaking()", "t.State.GameBlindState.IsBreaking()", 0)},
 	}
 }
